@@ -15,9 +15,10 @@
 EXTENDS Naturals, Sequences, FiniteSets, TLC, Json
 
 CONSTANT Mutant
-PageTokenKinds == {"absent", "string", "int32", "bytes"}
-PageSizeKinds == {"absent", "int32", "int64", "uint32", "string", "bool", "Int32Value", "UInt32Value"}
-MaxResultsKinds == {"absent", "int32", "uint32", "string", "Int32Value", "UInt32Value", "Int64Value"}
+\* "opt_*" = proto3 optional (explicit presence; the descriptor puts the field into a synthetic oneof) - still a string / an integer
+PageTokenKinds == {"absent", "string", "opt_string", "int32", "bytes"}
+PageSizeKinds == {"absent", "int32", "opt_int32", "int64", "uint32", "string", "bool", "Int32Value", "UInt32Value"}
+MaxResultsKinds == {"absent", "int32", "uint32", "opt_uint32", "string", "Int32Value", "UInt32Value", "Int64Value"}
 NextTokenKinds == {"absent", "string", "int32"}
 \* response layouts: sequence of [name, kind] in declaration order; kinds: rep_msg, rep_scalar, map, single_msg, scalar
 Layouts == { <<>>,
@@ -29,7 +30,8 @@ Layouts == { <<>>,
              <<[name |-> "item", kind |-> "single_msg"]>>,
              <<[name |-> "item", kind |-> "single_msg"], [name |-> "by", kind |-> "map"], [name |-> "items", kind |-> "rep_msg"]>>,
              <<[name |-> "others", kind |-> "rep_other_file"]>> }
-IntKinds == {"int32", "int64", "uint32"}
+IntKinds == {"int32", "int64", "uint32", "opt_int32", "opt_uint32"}
+StringKinds == {"string", "opt_string"}
 WrapperOk == {"Int32Value", "UInt32Value"}
 
 VARIABLES shape, verdict, stage
@@ -44,7 +46,7 @@ FirstRepeated(l) == IF \E i \in 1..Len(l) : Repeated(l[i].kind)
                     ELSE ""
 SizeOk(s) == CASE Mutant = "string_page_size" -> s.ps \in IntKinds \cup {"string"} \/ s.mr \in IntKinds \cup WrapperOk
                [] OTHER -> s.ps \in IntKinds \/ s.mr \in IntKinds \cup WrapperOk
-IsPaged(s) == s.pt = "string" /\ s.npt = "string" /\ SizeOk(s) /\ FirstRepeated(s.layout) # ""
+IsPaged(s) == s.pt \in StringKinds /\ s.npt = "string" /\ SizeOk(s) /\ FirstRepeated(s.layout) # ""
 LastRepeated(l) == l[CHOOSE i \in 1..Len(l) : Repeated(l[i].kind) /\ \A j \in (i+1)..Len(l) : ~Repeated(l[j].kind)].name
 ItemField(s) == IF ~IsPaged(s) THEN "" ELSE IF Mutant = "last_repeated" THEN LastRepeated(s.layout) ELSE FirstRepeated(s.layout)
 
@@ -54,7 +56,7 @@ Spec == Init /\ [][Next]_vars /\ WF_vars(Next)
 
 \* the property, restated on the verdict
 Inv_ExactlyWhen == stage = "classified" =>
-   ((verdict # "") <=> ( shape.pt = "string" /\ shape.npt = "string"
+   ((verdict # "") <=> ( shape.pt \in StringKinds /\ shape.npt = "string"
                          /\ (shape.ps \in IntKinds \/ shape.mr \in IntKinds \cup WrapperOk)
                          /\ \E i \in 1..Len(shape.layout) : Repeated(shape.layout[i].kind) ))
 Inv_FirstRepeated == stage = "classified" /\ verdict # "" =>
